@@ -221,6 +221,68 @@ fn check(case: &Case, ev: &mut CaseEv) -> CheckResult {
         let (_, act, _, _) = catch(|| net.forward(&xt)).map_err(|p| Fail::new(format!("forward panicked although predict did not (loops {}..{} x{} and {:?}): {}", case.a, case.b, case.k, case.second, p)))?;
         let last = act.last().unwrap();
         ensure!(last.shape == got.shape && tens::first_bit_diff(&tens::flat(last), &tens::flat(&got)).is_none(), "predict differs from the final activation of forward with loop connections {}..{} x{} (inskips {}) and {:?} ({:?}): {:?} vs {:?}; spec {:?}", case.a, case.b, case.k, case.inskips, case.second, case.acc, tens::flat(&got), tens::flat(last), spec);
+        // The value: a dense chain of equal widths, so every tensor is flat. For a loop nested inside another the
+        // statement leaves open whether the outer loop's repetitions re-run the inner loop; both readings are
+        // admissible, but the first pass is not in doubt (the inner loop runs, its accumulated value is passed on).
+        // For partially overlapping ranges only the plain reading exists; with input skips on the later loop its
+        // "original input" has been touched by the earlier loop's accumulation, so no value is asserted there.
+        let (a2, b2, k2, ins2) = case.second.unwrap();
+        let seq = |from: usize, to: usize, input: &Tensor| -> Tensor {
+            let mut cur = input.clone();
+            for l in &net.layers[from..to] {
+                cur = layer_forward(l, &cur).1;
+            }
+            cur
+        };
+        // accumulated value of `k` repetitions after a first pass `first(x)`, each repetition computed by `rep`
+        let run = |k: usize, ins: bool, xa: &Tensor, first: &dyn Fn(&Tensor) -> Tensor, rep: &dyn Fn(&Tensor) -> Tensor| -> Tensor {
+            let mut outs = vec![first(xa)];
+            for _ in 0..k {
+                let mut cur = outs.last().unwrap().clone();
+                if ins {
+                    cur = accumulate(Acc::Add, &cur, &[xa.clone()]);
+                }
+                outs.push(rep(&cur));
+            }
+            accumulate(case.acc, &outs[0], &outs[1..])
+        };
+        let end = net.layers.len();
+        let (a, b, k, ins) = (case.a, case.b, case.k, case.inskips);
+        let readings: Result<Vec<Tensor>, String> = catch(|| {
+            let xa = seq(0, a, &xt);
+            if b2 < b || (a2 == a && b2 > b) {
+                // nested: inner (ia..ib) inside outer (oa..ob)
+                let (ia, ib, ik, iins, oa, ob, ok, oins) = if b2 < b { (a2, b2, k2, ins2, a, b, k, ins) } else { (a, b, k, ins, a2, b2, k2, ins2) };
+                let plain = |x: &Tensor| seq(oa, ob + 1, x);
+                let full = |x: &Tensor| {
+                    let xi = seq(oa, ia, x);
+                    let inner_plain = |y: &Tensor| seq(ia, ib + 1, y);
+                    let v = run(ik, iins, &xi, &inner_plain, &inner_plain);
+                    seq(ib + 1, ob + 1, &v)
+                };
+                vec![seq(ob + 1, end, &run(ok, oins, &xa, &full, &plain)), seq(ob + 1, end, &run(ok, oins, &xa, &full, &full))]
+            } else if !ins2 {
+                // partial overlap a < a2 <= b < b2, later loop without input skips
+                let p1 = |x: &Tensor| seq(a, b + 1, x);
+                let v1 = run(k, ins, &xa, &p1, &p1);
+                let first2 = |_: &Tensor| seq(b + 1, b2 + 1, &v1);
+                let rep2 = |x: &Tensor| seq(a2, b2 + 1, x);
+                vec![seq(b2 + 1, end, &run(k2, false, &v1, &first2, &rep2))]
+            } else {
+                Vec::new()
+            }
+        });
+        let readings = readings.map_err(|p| Fail::new(format!("harness model of nested / overlapping loops panicked: {p}")))?;
+        if !readings.is_empty() {
+            let g = tens::flat(&got);
+            let close = |m: &Tensor| { let m = tens::flat(m); m.len() == g.len() && (0..g.len()).all(|i| !(g[i].is_finite() && m[i].is_finite()) || ulps32(g[i], m[i]) <= 2) };
+            ensure!(
+                readings.iter().any(close),
+                "loop connections {}..{} x{} (inskips {}) and {}..{} x{} (inskips {}), {:?}: the prediction {:?} is none of the admissible values {:?} (first pass with every loop run; repetitions of an enclosing loop with or without re-running the enclosed one); spec {:?}",
+                a, b, k, ins, a2, b2, k2, ins2, case.acc, g, readings.iter().map(tens::flat).collect::<Vec<_>>(), spec
+            );
+            ev.class(if readings.len() == 2 { "nested loops: value checked (two admissible readings)" } else { "partially overlapping loops: value checked" });
+        }
         ev.nontrivial = true;
         ev.set_sig(&(spec, case.a, case.b, case.k, case.acc, case.inskips, case.second, "overlap"));
         return Ok(());
@@ -339,7 +401,7 @@ impl Prop for C17 {
         t.pick(400_000, 30_000_000)
     }
     fn rule(&self) -> String {
-        "tape-decoded network (one case in 40 flat with 65-300 inputs) = optional prefix layer + looped range a..b whose output shape equals the input shape of a (1-3 dense layers; 1-2 shape-preserving convolutions / deconvolutions; 1x1-kernel padding-1 convolution + 3x3 pool; 2x2 deconvolution + 2x2 pool; 2x2 pool + 2x2 deconvolution and 3x3 pool + padded 1x1 convolution, i.e. ranges that start at a max-pool); in one case of four a second loop connection over a later disjoint range (optionally one layer in between); one case in twelve has two overlapping or nested loop connections over a chain of equally wide dense layers - the statement defines no value for those, only predict == final activation of forward is asserted there + optional suffix (a dense layer, which makes the range output flattened, or another fitting layer); k = 1..3 (one case in five: 4..24), ordinary / small / zero weights in the range, five accumulations, input skips on/off, any accumulation configured for (absent) skip connections; distinct weights, random inputs. Oracle: o0 = R(x_a), oi = R(o(i-1) [+ x_a]), value passed on = acc(o0; o1..ok), composed from the library's own single-layer forwards (accumulations computed by the harness) (<= 2 ulp, bit-identical today); for overwrite without input skips additionally the plain network with a..b repeated k+1 times and the same weights. Non-trivial: a < b or a spatial range. Distinct = (architecture, a, b, k, accumulation, input skips).".into()
+        "tape-decoded network (one case in 40 flat with 65-300 inputs) = optional prefix layer + looped range a..b whose output shape equals the input shape of a (1-3 dense layers; 1-2 shape-preserving convolutions / deconvolutions; 1x1-kernel padding-1 convolution + 3x3 pool; 2x2 deconvolution + 2x2 pool; 2x2 pool + 2x2 deconvolution and 3x3 pool + padded 1x1 convolution, i.e. ranges that start at a max-pool); in one case of four a second loop connection over a later disjoint range (optionally one layer in between); one case in twelve has two overlapping or nested loop connections over a chain of equally wide dense layers - there predict == final activation of forward is asserted and, for a loop nested inside another, that the prediction is one of the two admissible values (first pass with both loops run; the enclosing loop's repetitions with or without re-running the enclosed loop), for partially overlapping ranges without input skips on the later loop the single plain value (<= 2 ulp) + optional suffix (a dense layer, which makes the range output flattened, or another fitting layer); k = 1..3 (one case in five: 4..24), ordinary / small / zero weights in the range, five accumulations, input skips on/off, any accumulation configured for (absent) skip connections; distinct weights, random inputs. Oracle: o0 = R(x_a), oi = R(o(i-1) [+ x_a]), value passed on = acc(o0; o1..ok), composed from the library's own single-layer forwards (accumulations computed by the harness) (<= 2 ulp, bit-identical today); for overwrite without input skips additionally the plain network with a..b repeated k+1 times and the same weights. Non-trivial: a < b or a spatial range. Distinct = (architecture, a, b, k, accumulation, input skips).".into()
     }
     fn run_case(&self, tape: &[u32], ev: &mut CaseEv) -> CheckResult {
         check(&decode(tape), ev)
